@@ -1,6 +1,7 @@
 package main
 
 import (
+	"encoding/json"
 	"fmt"
 	"os"
 	"path/filepath"
@@ -144,6 +145,33 @@ func genBWorld(r *Rng, faulty bool) (*BWorld, []BOp) {
 				reg.Versions = append(reg.Versions, BVer{Ver: t})
 			}
 		}
+		// pre-release / build identifiers with upper-case letters (identifiers are case sensitive): a listing
+		// that offers only the upper-case spelling, or both spellings in either order (seed C17-h)
+		if r.Chance(18) {
+			pair := bUpperVerPool[r.Intn(len(bUpperVerPool))]
+			add := []string{pair[0]}
+			if r.Chance(50) {
+				add = append(add, pair[1])
+				if r.Chance(50) {
+					add[0], add[1] = add[1], add[0]
+				}
+			}
+			for _, a := range add {
+				dup := false
+				for _, o := range reg.Versions {
+					if o.Ver == a {
+						dup = true
+					}
+				}
+				if !dup {
+					v := BVer{Ver: a}
+					if r.Chance(25) {
+						v.HasDep, v.DepReason, v.DepLink = true, "spelling "+a, ""
+					}
+					reg.Versions = append(reg.Versions, v)
+				}
+			}
+		}
 		w.Regs = append(w.Regs, reg)
 		for _, v := range reg.Versions {
 			s := BSrc{Reg: reg.Addr, Ver: v.Ver, Pkg: w.Pkgs[r.Intn(npk)].Addr, Sub: r.Pick([]string{"", "", "m", "m/n"})}
@@ -238,6 +266,94 @@ func genBWorld(r *Rng, faulty bool) (*BWorld, []BOp) {
 	if len(ops) == 0 {
 		ops = append(ops, BOp{Kind: "ar", Pkg: w.Pkgs[0].Addr, Finder: 0})
 	}
+	nBasic := len(ops)
+	// final registry sources given as TEXT (parsed, not built with Versioned); a listed version with upper-case
+	// identifiers is often pinned that way
+	for i := range ops {
+		if ops[i].Kind == "af" && r.Chance(40) {
+			ops[i].Text = true
+		}
+	}
+	for _, reg := range w.Regs {
+		if reg.Err {
+			continue
+		}
+		for _, v := range reg.Versions {
+			if v.Ver != strings.ToLower(v.Ver) && r.Chance(60) {
+				ops = append(ops, BOp{Kind: "af", Pkg: reg.Addr, Sub: r.Pick([]string{"", "k", "m"}), Allowed: v.Ver, Finder: r.Intn(2), Text: r.Chance(75)})
+				break
+			}
+		}
+	}
+	// the same registry package at the same version requested several times with different sub-paths: the
+	// registry is asked once, every request is joined with its own sub-path (seed C11-h: the join skipped
+	// when the answer comes from the builder's table)
+	if nreg > 0 && r.Chance(15) {
+		reg := w.Regs[r.Intn(nreg)]
+		if !reg.Err && len(reg.Versions) > 0 {
+			ver := reg.Versions[r.Intn(len(reg.Versions))].Ver
+			subs := []string{"", "k", "m", "a/b", "m/n"}
+			start := r.Intn(len(subs))
+			nrep := 2
+			if r.Chance(25) {
+				nrep = 3
+			}
+			for k := 0; k < nrep; k++ {
+				sub := subs[(start+k)%len(subs)]
+				if r.Chance(50) {
+					ops = append(ops, BOp{Kind: "af", Pkg: reg.Addr, Sub: sub, Allowed: ver, Finder: r.Intn(2), Text: r.Chance(30)})
+				} else {
+					ops = append(ops, BOp{Kind: "ag", Pkg: reg.Addr, Sub: sub, Allowed: "only:" + ver, Finder: r.Intn(2)})
+				}
+			}
+		}
+	}
+	// a package whose URL is spelled non-canonically reaches the builder in BOTH spellings: built from the
+	// spelled URL (raw space, non-ASCII letter, ...) and parsed from the printed, percent-encoded form - in Add
+	// calls and in what the finders report (seed C13-h: the two values unequal although they print the same)
+	for _, p := range w.Pkgs {
+		if p.Spelling == "" {
+			continue
+		}
+		for i := range ops {
+			if ops[i].Kind == "ar" && ops[i].Pkg == p.Addr && r.Chance(40) {
+				ops[i].Canon = true
+			}
+		}
+		for i := range w.Deps {
+			for k := range w.Deps[i].Decls {
+				if dc := &w.Deps[i].Decls[k]; dc.Kind == "r" && dc.Pkg == p.Addr && r.Chance(40) {
+					dc.Canon = true
+				}
+			}
+		}
+		if r.Chance(40) {
+			// one Add call in the spelling opposite to that of an existing Add call for the package (two calls, one
+			// per spelling, where there is none)
+			have := -1
+			for i := range ops {
+				if ops[i].Kind == "ar" && ops[i].Pkg == p.Addr {
+					have = i
+				}
+			}
+			if have < 0 {
+				ops = append(ops, BOp{Kind: "ar", Pkg: p.Addr, Sub: r.Pick(bSubPool), Finder: r.Intn(2), Canon: r.Chance(50)})
+				have = len(ops) - 1
+			}
+			o := BOp{Kind: "ar", Pkg: p.Addr, Sub: r.Pick(bSubPool), Finder: r.Intn(2), Canon: !ops[have].Canon}
+			if r.Chance(50) {
+				ops = append(ops, o)
+			} else {
+				ops = append([]BOp{o}, ops...)
+			}
+		}
+	}
+	if len(ops) > nBasic && len(ops) == 4 {
+		// the calls added above brought the build to four Add calls, the size at which the builder-order lane
+		// still runs all 24 orders: one call is repeated (a repeated Add is an ordinary shape), so that these
+		// worlds take the sampled route (12 orders) and the lane's run time stays where it was
+		ops = append(ops, ops[r.Intn(len(ops))])
+	}
 	// a registry package that lists two versions differing in build metadata only: often BOTH are pinned in
 	// the same build (AddFinalRegistrySource, or AddRegistrySource with an exact set), so that the bundle
 	// has to keep two entries apart that compare as equal in precedence
@@ -315,11 +431,65 @@ func builderCorpus() []*bCase {
 	w3 := &BWorld{Pkgs: pkgs,
 		Regs: []BReg{{Addr: reg2, Versions: []BVer{{Ver: "2.0.0+build.5"}, {Ver: "1.0.0"}, {Ver: "2.0.0"}}}},
 		Srcs: []BSrc{{Reg: reg2, Ver: "2.0.0+build.5", Pkg: p1, Sub: "m"}, {Reg: reg2, Ver: "1.0.0", Pkg: p0, Sub: ""}, {Reg: reg2, Ver: "2.0.0", Pkg: p2, Sub: ""}}}
+	// one registry package at one version requested several times with different sub-paths, the registry naming a
+	// sub-path of its own (seed C11-h); the same from a finder
+	w4 := &BWorld{Pkgs: pkgs,
+		Regs: []BReg{{Addr: reg2, Versions: []BVer{{Ver: "1.0.0"}, {Ver: "1.1.0"}}}},
+		Srcs: []BSrc{{Reg: reg2, Ver: "1.0.0", Pkg: p0, Sub: ""}, {Reg: reg2, Ver: "1.1.0", Pkg: p1, Sub: "m"}},
+		Deps: []BDep{{Content: "c2", Sub: "", Finder: 0, Decls: []BDecl{{Kind: "g", Pkg: reg2, Sub: "", Allowed: "all", Finder: 0}, {Kind: "g", Pkg: reg2, Sub: "n", Allowed: "all", Finder: 0}, {Kind: "g", Pkg: reg2, Sub: "k", Allowed: "atleast:1.1.0", Finder: 1}}}}}
+	// listings with upper-case identifiers: only the upper-case spelling / both spellings; pinned from text (seed C17-h)
+	w5 := &BWorld{Pkgs: pkgs,
+		Regs: []BReg{{Addr: reg, Versions: []BVer{{Ver: "1.0.0-RC1"}, {Ver: "0.9.0"}}}, {Addr: reg2, Versions: []BVer{{Ver: "1.0.0-rc1", HasDep: true, DepReason: "old", DepLink: ""}, {Ver: "1.0.0-RC1"}, {Ver: "2.0.0-Beta.2+Build.7"}}}},
+		Srcs: []BSrc{{Reg: reg, Ver: "1.0.0-RC1", Pkg: p0, Sub: ""}, {Reg: reg, Ver: "0.9.0", Pkg: p1, Sub: ""}, {Reg: reg2, Ver: "1.0.0-rc1", Pkg: p1, Sub: "m"}, {Reg: reg2, Ver: "1.0.0-RC1", Pkg: p2, Sub: ""}, {Reg: reg2, Ver: "2.0.0-Beta.2+Build.7", Pkg: p0, Sub: "k"}}}
+	// a package spelled with a raw space, reached in both spellings (seed C13-h)
+	odd := bOddPkgPool[0]
+	oddSrc, err := oddRemote(odd.Type, odd.Spelling, "")
+	if err != nil {
+		panic("harness: odd package pool entry " + odd.Spelling)
+	}
+	oddAddr := oddSrc.Package().String()
+	w6 := &BWorld{Pkgs: []BPkg{{Addr: p0, Content: "c0"}, {Addr: oddAddr, Content: "c1", SrcType: odd.Type, Spelling: odd.Spelling}},
+		Deps: []BDep{{Content: "c0", Sub: "", Finder: 0, Decls: []BDecl{{Kind: "r", Pkg: oddAddr, Sub: "m", Finder: 0, Canon: true}}}}}
 	return []*bCase{
+		{World: w4, Ops: []BOp{{Kind: "ag", Pkg: reg2, Sub: "", Allowed: "all", Finder: 0}, {Kind: "ag", Pkg: reg2, Sub: "k", Allowed: "all", Finder: 0}, {Kind: "af", Pkg: reg2, Sub: "a/b", Allowed: "1.1.0", Finder: 1}, {Kind: "af", Pkg: reg2, Sub: "k", Allowed: "1.0.0", Finder: 0, Text: true}, {Kind: "ar", Pkg: p2, Sub: "", Finder: 0}}},
+		{World: w5, Ops: []BOp{{Kind: "af", Pkg: reg, Sub: "", Allowed: "1.0.0-RC1", Finder: 0, Text: true}, {Kind: "af", Pkg: reg2, Sub: "k", Allowed: "1.0.0-RC1", Finder: 1, Text: true}, {Kind: "af", Pkg: reg2, Sub: "", Allowed: "2.0.0-Beta.2+Build.7", Finder: 0, Text: true}}},
+		{World: w6, Ops: []BOp{{Kind: "ar", Pkg: oddAddr, Sub: "", Finder: 0}, {Kind: "ar", Pkg: oddAddr, Sub: "k", Finder: 1, Canon: true}, {Kind: "ar", Pkg: p0, Sub: "", Finder: 0}}},
 		{World: w1, Ops: []BOp{{Kind: "af", Pkg: reg, Sub: "", Allowed: "1.2.3+linux", Finder: 0}, {Kind: "af", Pkg: reg, Sub: "", Allowed: "1.2.3+darwin", Finder: 0}, {Kind: "af", Pkg: reg, Sub: "k", Allowed: "0.9.0", Finder: 1}}},
 		{World: w2, Ops: []BOp{{Kind: "ag", Pkg: reg, Sub: "k", Allowed: "only:1.2.3+darwin", Finder: 0}, {Kind: "ar", Pkg: p0, Sub: "", Finder: 0}, {Kind: "ag", Pkg: reg, Sub: "", Allowed: "only:1.2.3", Finder: 1}}},
 		{World: w3, Ops: []BOp{{Kind: "af", Pkg: reg2, Sub: "", Allowed: "2.0.0", Finder: 0}, {Kind: "af", Pkg: reg2, Sub: "k", Allowed: "2.0.0+build.5", Finder: 1}}},
 	}
+}
+
+// pairs (upper-case spelling, lower-case sibling) of versions whose pre-release / build identifiers have letters
+var bUpperVerPool = [][2]string{{"1.0.0-RC1", "1.0.0-rc1"}, {"2.0.0-Beta.2+Build.7", "2.0.0-beta.2+build.7"}, {"1.0.0-RC1", "1.0.0-rc1"}}
+
+// manifestDuplicates: descriptions of manifest rows of the bundle in target that share their source address
+func manifestDuplicates(target string) []string {
+	var mf struct {
+		Packages []struct {
+			Source string `json:"source"`
+			Local  string `json:"local"`
+		} `json:"packages"`
+	}
+	raw, err := os.ReadFile(filepath.Join(target, "terraform-sources.json"))
+	if err != nil || json.Unmarshal(raw, &mf) != nil {
+		return nil
+	}
+	rows := map[string][]string{}
+	var order []string
+	for _, p := range mf.Packages {
+		if _, ok := rows[p.Source]; !ok {
+			order = append(order, p.Source)
+		}
+		rows[p.Source] = append(rows[p.Source], p.Local)
+	}
+	var out []string
+	for _, s := range order {
+		if len(rows[s]) > 1 {
+			out = append(out, fmt.Sprintf("the manifest has %d package rows with the same source %s (local directories %s): the bundle depends on more than the set of sources added", len(rows[s]), s, strings.Join(rows[s], ", ")))
+		}
+	}
+	return out
 }
 
 func pickAllowed(r *Rng, faulty bool) string {
@@ -342,6 +512,8 @@ type refResult struct {
 	arts     map[refArt]bool
 	resolved map[string]string // reg|ver -> pkg|sub
 	regReq   []struct{ reg, sub, ver string }
+	// regArt: per registry request, the (package, sub-path, finder) artefact it must lead to
+	regArt []refArt
 }
 
 func refSelect(w *BWorld, reg, dsl string) (string, bool, bool) {
@@ -399,6 +571,7 @@ func refClosure(w *BWorld, ops []BOp) *refResult {
 				res.resolved[reg+"|"+ver] = s.Pkg + "|" + s.Sub
 				res.regReq = append(res.regReq, struct{ reg, sub, ver string }{reg, sub, ver})
 				final := strings.Trim(s.Sub+"/"+sub, "/")
+				res.regArt = append(res.regArt, refArt{s.Pkg, final, f})
 				add(refArt{s.Pkg, final, f})
 				return
 			}
@@ -499,7 +672,22 @@ func checkTrace(log []string, faultFree bool) []string {
 	if faultFree {
 		for k, n := range calls {
 			if n > 1 {
-				problems = append(problems, fmt.Sprintf("%s requested %d times", k, n))
+				what := k
+				fam, key, _ := strings.Cut(k, ":")
+				var parts []string
+				for _, x := range strings.Split(key, ":") {
+					d, _ := UnX(x)
+					parts = append(parts, d)
+				}
+				switch fam {
+				case "f":
+					what = "package " + strings.Join(parts, " ") + " (fetch)"
+				case "v":
+					what = "version listing of " + strings.Join(parts, " ")
+				case "s":
+					what = "source address of " + strings.Join(parts, " version ")
+				}
+				problems = append(problems, fmt.Sprintf("%s requested %d times", what, n))
 			}
 		}
 	}
@@ -560,7 +748,7 @@ func checkBCase(c *bCase) (why string) {
 			finder(dc.Finder)
 			switch dc.Kind {
 			case "r":
-				w.remote(dc.Pkg, dc.Sub)
+				w.remoteAs(dc.Pkg, dc.Sub, dc.Canon)
 			case "g":
 				mustRegistry(dc.Pkg, dc.Sub)
 				allowedSet(dc.Allowed)
@@ -585,6 +773,9 @@ func checkBCase(c *bCase) (why string) {
 		case "af":
 			mustRegistry(o.Pkg, o.Sub)
 			versions.MustParseVersion(o.Allowed)
+			if o.Text && strings.ContainsAny(finalText(o), " \n") {
+				panic("final registry text " + finalText(o))
+			}
 		default:
 			panic("operation kind " + o.Kind)
 		}
@@ -619,7 +810,7 @@ func hasErrorDiag(results []string) bool {
 
 func init() {
 	lanes["builder"] = func(cfg *Config, rep *Report) {
-		rep.Rule = "scripted worlds: 2..5 remote packages (git/https/ssh, with query strings; shared content for coalescing), 0..2 registry packages with 1..4 versions (incl. pre-release, shuffled listing, deprecations), dependency tables per (content, sub-path, finder) with remote / registry / relative edges (cycles, diamonds, self-references arise freely), warnings with valid and invalid file names; about a third of the worlds hold a package whose URL is spelled non-canonically (raw space, '|', non-ASCII letter, quote, '^') and whose addresses are built with MakeRemoteSource from the parsed URL wherever they are added, reported or looked up; in half of the worlds the finders keep one pair of range objects per file name and hand it out with every diagnostic about that file (often one kept warning for most artefacts of a finder); 15% of the listings get a version that differs from a listed one in build metadata only, and for half of the listings with such a pair both versions are pinned in the build (AddFinalRegistrySource or an exact allowed set); a fixed corpus of such worlds; every registry request is looked up in the bundle returned by Close and in the re-opened one (location, recorded source address, deprecation note of exactly that version string); 1..5 Add calls incl. repeats and AddFinalRegistrySource (in failing worlds half of them pin a version the registry does not list: below all, between two, above all, pre-releases); lookups on the bundle returned by Close and on the re-opened one; one third of the worlds contain failing fetches/registry answers/escaping relative paths/error diagnostics; non-trivial = has a registry hop, a relative edge or a repeated Add; distinct by (world, ops)"
+		rep.Rule = "scripted worlds: 2..5 remote packages (git/https/ssh, with query strings; shared content for coalescing), 0..2 registry packages with 1..4 versions (incl. pre-release, shuffled listing, deprecations), dependency tables per (content, sub-path, finder) with remote / registry / relative edges (cycles, diamonds, self-references arise freely), warnings with valid and invalid file names; about a third of the worlds hold a package whose URL is spelled non-canonically (raw space, '|', non-ASCII letter, quote, '^') and whose addresses are built with MakeRemoteSource from the parsed URL wherever they are added, reported or looked up; in half of the worlds the finders keep one pair of range objects per file name and hand it out with every diagnostic about that file (often one kept warning for most artefacts of a finder); 15% of the listings get a version that differs from a listed one in build metadata only, and for half of the listings with such a pair both versions are pinned in the build (AddFinalRegistrySource or an exact allowed set); a fixed corpus of such worlds; every registry request is looked up in the bundle returned by Close and in the re-opened one (location, recorded source address, deprecation note of exactly that version string); 18% of the listings offer a version whose pre-release / build identifiers have upper-case letters (1.0.0-RC1, 2.0.0-Beta.2+Build.7), half of those also the lower-case sibling, and such a version is usually pinned; 40% of the final registry sources are PARSED from their text (ParseFinalRegistrySource / ParseFinalSource) instead of built with Versioned (a pinned version the registry offers is resolved, never refused, and exactly that version is recorded); in 15% of the worlds with a registry one package version is requested two or three times with different sub-paths (every request's artefact = the address the registry named joined with the request's own sub-path, charged to C11); a package with a spelled URL is often reached in BOTH spellings - built from the spelled URL and parsed from the printed form, in Add calls and finder reports (C06: the two values are equal; C14: fetched once; C13: no two manifest rows with the same source); 1..5 Add calls incl. repeats and AddFinalRegistrySource (in failing worlds half of them pin a version the registry does not list: below all, between two, above all, pre-releases); lookups on the bundle returned by Close and on the re-opened one; one third of the worlds contain failing fetches/registry answers/escaping relative paths/error diagnostics; non-trivial = has a registry hop, a relative edge or a repeated Add; distinct by (world, ops)"
 		r := NewRng(cfg.Seed)
 		if cfg.Work == "" {
 			rep.Broken = append(rep.Broken, "builder lane needs -work")
@@ -725,6 +916,57 @@ func judgeBuild(rep *Report, c *bCase, run *bRun, i int) {
 	fail := func(prop, what string) {
 		rep.AddOracle(OracleFailure{Property: prop, Lane: "builder", What: what, Input: c, ReqIdx: i + 1})
 	}
+	// distribution of the world shapes of seeds C11-h / C13-h / C17-h
+	{
+		subsOf := map[string]map[string]bool{}
+		for _, rq := range ref.regReq {
+			k := rq.reg + "|" + rq.ver
+			if subsOf[k] == nil {
+				subsOf[k] = map[string]bool{}
+			}
+			subsOf[k][rq.sub] = true
+		}
+		for _, m := range subsOf {
+			if len(m) > 1 {
+				rep.Count("registry:same-package-version-requested-with-different-sub-paths")
+				break
+			}
+		}
+		spelled, canon := map[string]bool{}, map[string]bool{}
+		note := func(pkg string, c bool) {
+			if c {
+				canon[pkg] = true
+			} else {
+				spelled[pkg] = true
+			}
+		}
+		for _, o := range c.Ops {
+			if o.Kind == "ar" {
+				note(o.Pkg, o.Canon)
+			}
+		}
+		for _, d := range w.Deps {
+			for _, dc := range d.Decls {
+				if dc.Kind == "r" {
+					note(dc.Pkg, dc.Canon)
+				}
+			}
+		}
+		for _, p := range w.Pkgs {
+			if p.Spelling != "" && spelled[p.Addr] && canon[p.Addr] {
+				rep.Count("spelling:package-mentioned-in-both-spellings")
+				break
+			}
+		}
+		for _, o := range c.Ops {
+			if o.Kind == "af" && o.Text {
+				rep.Count("final:parsed-from-text")
+				if o.Allowed != strings.ToLower(o.Allowed) {
+					rep.Count("final:parsed-from-text-with-upper-case-identifiers")
+				}
+			}
+		}
+	}
 	// C12: finder diagnostics reach the caller with package-relative file names rewritten as source
 	// addresses inside the analysed package (a rewritten name is never itself a valid sub-path)
 	for _, ds := range run.diagsRaw {
@@ -815,7 +1057,15 @@ func judgeBuild(rep *Report, c *bCase, run *bRun, i int) {
 		} else if run.bundle != nil {
 			fin := mustRegistry(op.Pkg, op.Sub).Versioned(versions.MustParseVersion(op.Allowed))
 			if _, err := run.bundle.LocalPathForFinalRegistrySource(fin); err != nil {
-				fail("C17", fmt.Sprintf("final registry source %s was added without error but the bundle cannot look it up at that version: %v", fin, err))
+				how := ""
+				if op.Text {
+					how = fmt.Sprintf(" (parsed from the text %q)", finalText(op))
+				}
+				var recorded []string
+				for _, v := range run.bundle.RegistryPackageVersions(fin.Package()) {
+					recorded = append(recorded, v.String())
+				}
+				fail("C17", fmt.Sprintf("final registry source %s%s was added without error but the bundle cannot look it up at that version: %v (versions recorded for the package: [%s])", fin, how, err, strings.Join(recorded, " ")))
 			}
 		}
 	}
@@ -837,6 +1087,32 @@ func judgeBuild(rep *Report, c *bCase, run *bRun, i int) {
 		return
 	}
 	if !ref.fail && errs {
+		// C17: a pinned version the registry offers (exactly that version string) is resolved, not refused
+		for k, op := range c.Ops {
+			if op.Kind == "af" && k < len(run.results) && hasErrorDiag(run.results[k:k+1]) {
+				how := "AddFinalRegistrySource(" + op.Pkg + "@" + op.Allowed + ")"
+				if op.Text {
+					how = fmt.Sprintf("AddFinalRegistrySource of the final source parsed from %q", finalText(op))
+				}
+				asked := []string{}
+				for _, ev := range run.env.log {
+					if strings.HasPrefix(ev, "sc:"+X(op.Pkg)+":") {
+						v, _ := UnX(strings.TrimPrefix(ev, "sc:"+X(op.Pkg)+":"))
+						asked = append(asked, v)
+					}
+				}
+				askedRight := false
+				for _, a := range asked {
+					if a == op.Allowed {
+						askedRight = true
+					}
+				}
+				if askedRight {
+					continue // the version was selected; the error comes from further down the graph
+				}
+				fail("C17", fmt.Sprintf("%s reports an error (%s) although the registry offers exactly version %s and every step reachable from it succeeds; the registry was asked for the source of [%s]", how, run.results[k], op.Allowed, strings.Join(asked, " ")))
+			}
+		}
 		fail("C08", "the build reports an error although every reachable step of the scripted world succeeds: "+strings.Join(run.results, "|"))
 		return
 	}
@@ -849,6 +1125,66 @@ func judgeBuild(rep *Report, c *bCase, run *bRun, i int) {
 	if run.bundle == nil {
 		fail("C08", fmt.Sprintf("Close failed after an error-free build: %v (poisoned=%v)", run.closeErr, run.poisoned))
 		return
+	}
+	// C06: a package that carries a spelling: the value built from the spelled URL and the value parsed from the
+	// printed form print the same, so they are equal (seed C13-h)
+	for _, p := range w.Pkgs {
+		if p.Spelling == "" {
+			continue
+		}
+		a, b2 := w.remote(p.Addr, "m"), mustRemote(p.Addr, "m")
+		if a.String() == b2.String() && a != b2 {
+			au, bu := a.Package().URL(), b2.Package().URL()
+			fail("C06", fmt.Sprintf("two unequal remote addresses print the same (%s): MakeRemoteSource(%q, url.Parse(%q), \"m\") has RawPath %q / RawFragment %q, the address parsed from the printed form has RawPath %q / RawFragment %q", a, p.SrcType, p.Spelling, au.RawPath, au.RawFragment, bu.RawPath, bu.RawFragment))
+		}
+	}
+	// C13: no two manifest rows with the same source
+	for _, d := range manifestDuplicates(run.target) {
+		fail("C13", d)
+	}
+	// C11: the same rules govern joining a registry sub-path onto the address a registry returns: every registry
+	// request leads to the analysis of (the address the registry named for the selected version) joined with the
+	// request's own sub-path by the segment rules (seed C11-h: the join skipped for a repeated package version)
+	for qi, rq := range ref.regReq {
+		if qi >= len(ref.regArt) {
+			break
+		}
+		a := ref.regArt[qi]
+		named := ref.resolved[rq.reg+"|"+rq.ver]
+		npk, nsub, _ := strings.Cut(named, "|")
+		joined, ok := refApply(nsub, "./"+rq.sub)
+		if !ok || joined != a.sub {
+			continue
+		}
+		if run.env.analysed[X(a.pkg)+":"+X(a.sub)+":"+fmt.Sprint(a.f)] > 0 {
+			continue
+		}
+		// (only where the version selection went right: the registry was asked for the source of that version)
+		askedRight := false
+		for _, ev := range run.env.log {
+			if ev == "sc:"+X(rq.reg)+":"+X(rq.ver) {
+				askedRight = true
+			}
+		}
+		if !askedRight {
+			continue
+		}
+		var seenSubs []string
+		for k := range run.env.analysed {
+			parts := strings.Split(k, ":")
+			if len(parts) == 3 && parts[0] == X(a.pkg) && parts[2] == fmt.Sprint(a.f) {
+				sp, _ := UnX(parts[1])
+				seenSubs = append(seenSubs, fmt.Sprintf("%q", sp))
+			}
+		}
+		sort.Strings(seenSubs)
+		repeated := 0
+		for _, o := range ref.regReq {
+			if o.reg == rq.reg && o.ver == rq.ver {
+				repeated++
+			}
+		}
+		fail("C11", fmt.Sprintf("registry source %s (selected version %s, requested %d time(s) in this build at that version): the registry named %s; joined with the request's sub-path %q by the segment rules that is %s, which finder %d never analysed (it analysed the sub-paths [%s] of that package)", mustRegistry(rq.reg, rq.sub), rq.ver, repeated, w.remote(npk, nsub), rq.sub, w.remote(a.pkg, a.sub), a.f, strings.Join(seenSubs, " ")))
 	}
 	// C08/C14: analysed set == reference closure
 	got := map[string]bool{}
